@@ -38,6 +38,8 @@ def make_case(rng, tier):
     else:
         c["t_max"] = c["dt"] * 10 ** 6
     c["t_sample"] = [0.0]
+    if rng.random() < 0.3:
+        c["chs"] = [rng.choice([1, 2, 3, 5]) if b else 0 for b in c["chs"]]      # any non-zero flag is a chemostat
     return c
 
 
